@@ -57,6 +57,9 @@ class DirectFirmware:
         if b == "probe+ok":
             # Grbl's comma-separated multi-axis forms
             return self._out([(f"[PRB:{val},2.500,-3.500:1]", ("report", k, ("X", float(val)))), ("ok", ("ack", k))])
+        if b == "alarm-status+ok":
+            # a status report whose *state word* is Alarm / whose text mentions an error: a report, not an error reply
+            return self._out([(f"<Alarm|MPos:{val},2.000,3.000|FS:0,0|Pn:X>", ("report", k, ("X", float(val)))), ("echo: last error cleared !! ok", ("info", k)), ("ok", ("ack", k))])
         if b == "int-report-in-ok":
             # whole-number readings (no decimal point), as many firmwares print them
             return self._out([(f"ok T:{k + 2}10 /210 B:60 /60", ("ack", k, ("T", float(f"{k + 2}10"))))])
@@ -420,7 +423,7 @@ def plan(tier):
     healthy = ["ok", "status+ok", "report+ok", "report-in-ok"]
     # readings in Grbl's multi-axis forms (probe result, status report)
     for behs in (("probe+ok", "ok"), ("report+ok", "probe+ok"), ("grbl-status+ok", "probe+ok"), ("error", "grbl-status+ok"),
-                 ("int-report-in-ok", "report+ok"), ("ok", "int-report-in-ok")):
+                 ("int-report-in-ok", "report+ok"), ("ok", "int-report-in-ok"), ("alarm-status+ok", "ok"), ("ok", "alarm-status+ok")):
         for c in cfgs(two, behs, ("Q", "L"), (None,), (False, True), True):
             items.append((c, 0 if tier == "quick" else 1, None))
     for behs in (("ok", "report+ok"), ("error", "ok"), ("probe+ok", "alarm")):
